@@ -119,12 +119,25 @@ class Recorder:
         with builtins.open(p, "rb") as fh:
             return fh.read()
 
+    def aliased(self):
+        """The .bak is another name (symbolic or hard link) of the file the target path reads."""
+        t, b = self.paths["target"], self.paths["backup"]
+        try:
+            return os.path.lexists(b) and os.path.exists(t) and os.path.exists(b) and os.path.samefile(t, b)
+        except OSError:
+            return False
+
     def classify(self):
         out = {}
         for r in ROLES:
-            b = self.read(r)
+            try:
+                b = self.read(r)
+            except OSError:
+                b = b"\x00unreadable"
             if b is None:
                 out[r] = "absent"
+            elif r == "backup" and self.aliased():
+                out[r] = "ALIAS"
             elif b == self.pre and r != "output":
                 out[r] = "ORIG"
             elif (r == "backup" and b == STALE_BAK) or (r == "output" and b == STALE_OUT):
@@ -139,8 +152,9 @@ class Recorder:
 
     def event(self, op, role, res, eff):
         self.events.append({"op": op, "role": role, "res": res, "eff": eff, "post": self.classify()})
-        self.facts.append({"t": self.read("target") == self.pre, "b": self.read("backup") == self.pre,
-                           "o": self.read("output")})
+        alias = self.aliased()
+        self.facts.append({"t": self.read("target") == self.pre, "b": self.read("backup") == self.pre and not alias,
+                           "o": self.read("output"), "alias": alias})
 
     # ---- one intercepted call
     def call(self, op, role, real, effect=None, cleanup=None):
@@ -248,10 +262,20 @@ def install(mod, rec):
                     raw.flush()        # observation aid (the bytes reach the file at close() anyway)
 
             def effect(eff):
-                if eff in ("partial", "full"):
+                # dump-partial: the emitter delivered a strict prefix of the new document and then failed.
+                #   "partial":  the prefix is already in the file (flushed);
+                #   "buffered": the prefix still sits in the handle's buffer - nothing is flushed here, it reaches the
+                #               file whenever the tool (or the unwinding with-block) closes THIS handle.
+                if eff in ("partial", "full", "buffered"):
                     text = render(data, *a, **k)
-                    raw.write(text[:max(1, len(text) // 2)] if eff == "partial" else text)
-                    raw.flush()
+                    cut = (rec.fault or {}).get("cut", "half")
+                    n = {"one": 1, "third": len(text) // 3, "half": len(text) // 2, "most": len(text) - 1}[cut]
+                    n = max(1, min(n, len(text) - 1))
+                    if eff == "buffered":
+                        n = min(n, 4000)        # stays below the io buffer size: nothing reaches the file yet
+                    raw.write(text if eff == "full" else text[:n])
+                    if eff != "buffered":
+                        raw.flush()
             return rec.call("dump", stream._role, real, effect=effect)
         return w_dump
 
@@ -335,6 +359,12 @@ def setup_dir(d, sc):
         with builtins.open(os.path.join(d, name), "wb") as fh:
             fh.write(text.encode("utf-8"))
     target = os.path.join(d, sc["target"])
+    if sc.get("link"):
+        # file kind: the target path is a symbolic link (absolute or relative) to a regular file kept elsewhere
+        os.makedirs(os.path.join(d, "store"))
+        os.rename(target, os.path.join(d, "store", sc["target"]))
+        os.symlink(os.path.join(d, "store", sc["target"]) if sc["link"] == "abs" else os.path.join("store", sc["target"]),
+                   target)
     paths = {"target": target, "backup": target + ".bak",
              "output": os.path.join(d, sc.get("output") or "out.yaml")}
     o = sc["o"]
@@ -355,8 +385,12 @@ def setup_dir(d, sc):
 
 
 def snapshot(d):
+    """name -> bytes read through that name (None for directories and dangling links); store/ is listed as store/<name>."""
     out = {}
-    for name in sorted(os.listdir(d)):
+    names = sorted(os.listdir(d))
+    if os.path.isdir(os.path.join(d, "store")):
+        names += ["store/" + n for n in sorted(os.listdir(os.path.join(d, "store")))]
+    for name in names:
         p = os.path.join(d, name)
         if os.path.isfile(p):
             with builtins.open(p, "rb") as fh:
@@ -403,7 +437,11 @@ def run_scenario(sc, fault, new, scratch):
         "others_changed": sorted(n for n in before if n not in (tname, bname, oname) and after.get(n) != before[n]),
         "steps": [{"t": f["t"], "b": f["b"], "o_kept": f["o"] == before.get(oname)} for f in rec.facts],
         "copied_at": next((i for i, e in enumerate(rec.events) if e["op"] == "copy2" and e["res"] == "ok"), None),
+        "backup_aliases_target": rec.aliased() or any(f["alias"] for f in rec.facts),
+        "target_kind_kept": os.path.islink(paths["target"]) == bool(sc.get("link")),
     }
+    if rec.aliased():
+        facts["backup_is_preimage"] = False      # it reads the pre-image only as long as nobody writes the target
     written = after.get(oname if sc["tool"] == "merge_out" else tname)
     shutil.rmtree(d, ignore_errors=True)
     return {"events": events, "status": status, "code": code, "fs": fs, "facts": facts, "fired": rec.fired,
